@@ -10,8 +10,9 @@ from vlib import sigs as S
 from vlib.common import build_harness, build_tool, run_tool, workdir, MachineryError, pmap, default_configs
 
 BACKENDS = ["js", "dart", "kotlin", "nanobind"]
-# forms whose presence crashes some backend regardless of borrowing (reported by C15) or the visitor (reported by the in-process half)
-EXCLUDED_PARAMS = {"Option<&'x [u8]>", "Option<SB<'x>>", "&'static Op", "&'static str"}
+# 'static slices are outside the js/dart profiles; Kotlin has no Option<struct> support and crashes on any Option<&[T]> parameter (C15 finding)
+EXCLUDED_PARAMS = {"&'static Op", "&'static str"}
+EXCLUDED_FOR = {"kotlin": {"Option<&'x [u8]>", "Option<SB<'x>>"}}
 # returned slices/strings are copied into host values by some backends (Kotlin arrays/Strings, nanobind std::string): the
 # returned value then borrows nothing, so no edge is required; these return forms are judged in the in-process half only
 # JS panics on any Result whose error type is a primitive (converter.rs `e.id().unwrap()`): reported by C15, kept out of this module
@@ -69,9 +70,12 @@ class Undecided(Exception):
 
 def _elem_js_dart(e, backend):
     e = e.strip()
+    m = re.fullmatch(r"\.\.\.\((this|p\d+)\?\._fieldsForLifetime([A-Z]) \|\| \[\]\)", e)
+    if m:  # optional struct parameter (JS)
+        return (m.group(1), "struct", m.group(2).lower())
     if e == "this":
         return ("this", "opaque", None)
-    m = re.fullmatch(r"\.\.\.(this|p\d+)\._fieldsForLifetime([A-Z])", e)
+    m = re.fullmatch(r"\.\.\.\??(this|p\d+)\??\._fieldsForLifetime([A-Z])(?: \?\? \[\])?", e)
     if m:
         return (m.group(1), "struct", m.group(2).lower())
     m = re.fullmatch(r"(p\d+)(Slice|Arena)?", e)
@@ -229,7 +233,20 @@ def backend_half(rep, tier):
     hirx = os.path.join(build_harness("hirx"), "hirx")
     build_tool()
     wd = workdir("C04b")
-    sigs = _filter_accepted(_sig_sets(tier), hirx, wd)
+    allsigs = _filter_accepted(_sig_sets(tier), hirx, wd)
+    groups = [(["js", "dart", "nanobind"], allsigs),
+              (["kotlin"], [s for s in allsigs if not any(f.name in EXCLUDED_FOR["kotlin"] for f, _ in s.params)])]
+    totals = {"methods": 0, "judged": 0, "nontrivial": 0, "shards": 0}
+    for backends, sigs in groups:
+        _run_group(rep, wd, sigs, backends, totals)
+    shutil.rmtree(wd, ignore_errors=True)
+    return {"methods": len(allsigs), "judgements": totals["judged"], "nontrivial": totals["nontrivial"], "shards": totals["shards"], "backends": BACKENDS,
+            "excluded_param_forms": sorted(EXCLUDED_PARAMS), "excluded_for_backend": {k: sorted(v) for k, v in EXCLUDED_FOR.items()},
+            "samples": [{"backend_half_sig": s.render_method("m"), "impl": s.impl_header(),
+                         "expected": {k: sorted(map(str, v)) for k, v in s.expected_edges().items()}} for s in allsigs[5:400:150]]}
+
+
+def _run_group(rep, wd, sigs, BACKENDS, totals):
     # shard: <= 100 methods per owner type per file
     shards = []
     per = 100
@@ -305,8 +322,6 @@ def backend_half(rep, tier):
             key = "C04b|%s|%s|self=%s|ret=%s|params=%s" % (b, cls, d["self"], re.sub(r"'[a-z]\b", "'_", d["ret"]),
                                                         ",".join(re.sub(r"'[a-z]\b", "'_", p) for p in d["params"]))
             rep.violation(key, {"backend": b, "signature": d, "problem": det}, "%s: %s on `%s`" % (b, det, d["text"]))
-    shutil.rmtree(wd, ignore_errors=True)
-    return {"methods": len(sigs), "judgements": judged, "nontrivial": nontrivial, "shards": len(shards), "backends": BACKENDS,
-            "excluded_param_forms": sorted(EXCLUDED_PARAMS),
-            "samples": [{"backend_half_sig": s.render_method("m"), "impl": s.impl_header(),
-                         "expected": {k: sorted(map(str, v)) for k, v in s.expected_edges().items()}} for s in sigs[5:400:150]]}
+    totals["judged"] += judged
+    totals["nontrivial"] += nontrivial
+    totals["shards"] += len(shards)
